@@ -54,7 +54,8 @@ pub fn coeff_vec(r: &mut Rng, len: usize, x: f64) -> (Vec<f64>, &'static str) {
 }
 
 pub fn arg_poly(r: &mut Rng) -> (f64, &'static str) {
-    match r.below(15) {
+    match r.below(16) {
+        15 => (r.sign() * 10f64.powf(r.uniform(30.0, 150.0)), "huge"),
         14 => (r.sign() * 10f64.powf(r.uniform(-300.0, -80.0)), "tiny_powers_underflow"),
         0 => (0.0, "zero"),
         1 => (1.0, "one"),
